@@ -436,10 +436,17 @@ pub fn check_request(tape: &[u16], rc: &mut RCase) -> Result<(), Failure> {
                     Type::UtxoRef => json!("nohash"),
                     _ => json!({"x": 1}),
                 };
-                if t.flag() {
-                    env.insert(name.clone(), j);
+                // the ill-formed value travels under the argument map (whatever the environment map holds) or,
+                // one time in three, under the environment map alone: a declared parameter is coerced by its
+                // declared type whichever map supplies it
+                if t.chance(1, 3) {
+                    env.insert(name.clone(), bad);
+                } else {
+                    if t.flag() {
+                        env.insert(name.clone(), j);
+                    }
+                    args.insert(name.clone(), bad);
                 }
-                args.insert(name.clone(), bad);
                 ill_formed_arg = Some(name.clone());
             }
             0 => {
